@@ -85,9 +85,26 @@ def unit_c07_sweep():
                                 yield (h, n, bad, u)
                                 if bad is not None: yield (h, n, -bad, u)        # the bad row is a blank line (a row without items) instead of a bad cell
                                 if bad is not None and bad > h and u is not None: yield (h, n, ("q", bad), u)      # the bad row breaks the container (unterminated quote): the validate-only API never gets there when it lies behind the N data rows
+            def cases_huge():
+                yield from cases()
+                for lim in (2**63 - 1, 2**63, 2**64 + 5): yield (1, 2, ("huge", lim), lim)
             cli_count = [0]
             def check(c):
                 h, n, bad, u = c
+                if isinstance(bad, tuple) and bad[0] == "huge":
+                    # a limit beyond anything a file can hold behaves like no limit - in both validate-only APIs and on the command line
+                    text = "".join("%d,r%d\n" % (j, j) for j in range(1, n + 1)) + "x,bad\n"
+                    cp = os.path.join(tmp, "cid.csv"); dp = os.path.join(tmp, "data.csv")
+                    with open(cp, "w", encoding="utf-8") as f: f.write(cid_text(h))
+                    with open(dp, "w", encoding="cp1252", newline="") as f: f.write(text)
+                    want = n + 1 > h
+                    for label, call in (("validate()", lambda: validio.validate(interface.create_cid_from_string(cid_text(h)), dp, validate_until=bad[1])),
+                                        ("Reader.validate_rows()", lambda: validio.Reader(interface.create_cid_from_string(cid_text(h)), dp, validate_until=bad[1]).validate_rows())):
+                        try: call(); obs = False
+                        except errors.DataError: obs = True
+                        if obs != want: return {"expected": "%s with limit %d %s" % (label, bad[1], "raises" if want else "passes"), "observed": "raises" if obs else "passes"}
+                    rc = applications.main(["cutplace", "--until", str(bad[1]), cp, dp])
+                    return None if rc == (1 if want else 0) else {"expected": "exit %d for --until %d" % (1 if want else 0, bad[1]), "observed": "exit %r" % rc}
                 if isinstance(bad, tuple):
                     k = bad[1]
                     rows = [[str(j), ('"r%d' % j) if j == k else "r%d" % j] for j in range(1, n + 1)]
@@ -101,11 +118,23 @@ def unit_c07_sweep():
                     with open(dp, "w", encoding="cp1252", newline="") as f: f.write(text)
                     rc = applications.main(["cutplace", "--until", str(u), cp, dp])
                     if rc != (1 if reached else 0): return {"expected": "exit %d for --until %d (what validate() with that limit says)" % (1 if reached else 0, u), "observed": "exit %r" % rc}
-                    rd = validio.Reader(interface.create_cid_from_string(cid_text(h)), dp, validate_until=u)
-                    try: rd.validate_rows(); r_obs = False
-                    except errors.DataError: r_obs = True
-                    finally: rd.close()
-                    if r_obs != reached: return {"expected": "Reader.validate_rows() %s" % ("raises" if reached else "passes"), "observed": "raises" if r_obs else "passes"}
+                    # Reader.validate_rows() in every error mode, with a bad cell in the row before the broken one as well (a rejected row counts towards the N data rows)
+                    for mode in ("raise", "yield", "continue"):
+                        for with_bad_cell in (False, True):
+                            if with_bad_cell and (mode == "raise" or k - 1 <= h): continue
+                            rows2 = [list(r) for r in rows]
+                            if with_bad_cell: rows2[k - 2][0] = "x"
+                            with open(dp, "w", encoding="cp1252", newline="") as f: f.write("".join(",".join(r) + "\n" for r in rows2))
+                            rd = validio.Reader(interface.create_cid_from_string(cid_text(h)), dp, on_error=mode, validate_until=u)
+                            try: rd.validate_rows(); r_obs = False
+                            except errors.DataError: r_obs = True
+                            finally:
+                                try: rd.close()
+                                except errors.DataError: pass
+                            if r_obs != reached: return {"expected": "Reader.validate_rows() in mode %r%s %s" % (mode, " after a rejected row" if with_bad_cell else "", "raises" if reached else "passes"), "observed": "raises" if r_obs else "passes"}
+                            if not r_obs and not (isinstance(rd.accepted_rows_count, int) and isinstance(rd.rejected_rows_count, int)):
+                                return {"expected": "row counters that are numbers", "observed": (rd.accepted_rows_count, rd.rejected_rows_count)}
+                            if rd.on_error != mode: return {"expected": "the reader keeps its error mode %r" % mode, "observed": rd.on_error}
                     return None
                 blank = bad is not None and bad < 0; bad = abs(bad) if bad is not None else None
                 rows = [([] if blank and k == bad else ["x" if k == bad else str(k), "r%d" % k]) for k in range(1, n + 1)]
@@ -155,9 +184,9 @@ def unit_c07_sweep():
                         rc = applications.main(["cutplace", "--until", "-1", cp, dp])
                         if rc != (1 if reported else 0): return {"expected": "--until -1 behaves like no limit", "observed": "exit %r" % rc}
                 return None
-            return [sweep("C07/sweep/header and limit window through rows(), validate() and --until", cases(), check, "bounded",
+            return [sweep("C07/sweep/header and limit window through rows(), validate() and --until", cases_huge(), check, "bounded",
                           "header 0-3 x tables of 0-4 rows x a single bad row (a bad cell, a blank line, or an unterminated quote for the validate-only APIs) at every position (or none) x limit in {none, 0..rows+1} x both APIs (and fixed-width data without line delimiter); command line --until on every 3rd case and every --until 0 case (all in thorough)",
-                          describe=lambda c: {"header": c[0], "rows": c[1], "bad_row": (c[2][1] if isinstance(c[2], tuple) else abs(c[2])) if c[2] else None, "bad_row_is": "an unterminated quote" if isinstance(c[2], tuple) else ("a blank line" if c[2] and c[2] < 0 else "a bad cell"), "validate_until": c[3]}, function="validio.rows / validio.validate / applications.main", unit="C07.sweep")]
+                          describe=lambda c: {"header": c[0], "rows": c[1], "bad_row": (c[2][1] if isinstance(c[2], tuple) else abs(c[2])) if c[2] else None, "bad_row_is": ("a limit of 2**63 or more" if c[2][0] == "huge" else "an unterminated quote") if isinstance(c[2], tuple) else ("a blank line" if c[2] and c[2] < 0 else "a bad cell"), "validate_until": c[3]}, function="validio.rows / validio.validate / applications.main", unit="C07.sweep")]
         finally:
             shutil.rmtree(tmp, ignore_errors=True)
     return NativeUnit("C07.sweep", "bounded sweep of the header/limit window through both APIs and the command line", ["C07"], run, kind="bounded")
@@ -363,7 +392,7 @@ def unit_c18_table():
             r5 = sweep("C18/table/a damaged CID file is a rejected CID (exit 1)", dcases(), dcheck, "bounded", "5 damaged CID files (ods, xlsx, csv)", describe=lambda c: {"cid file": c[0]}, function="applications.main", unit="C18.table")
             # an empty file name is a name that cannot be read (3) or an unusable argument (2), never an internal failure
             def ncases():
-                yield [""]; yield [cids["valid"], ""]; yield [cids["valid"], files["accepted"][0], ""]; yield ["--until", "1", cids["valid"], ""]
+                yield [""]; yield [cids["valid"], ""]; yield [cids["valid"], files["accepted"][0], ""]; yield ["--until", "1", cids["valid"], ""]; yield ["--plugins", "", cids["valid"], files["accepted"][0]]
             def ncheck(args):
                 with contextlib.redirect_stderr(io.StringIO()):
                     try: rc = applications.main(["cutplace"] + list(args))
